@@ -1584,6 +1584,7 @@ PROPS = {
 # K3 additions (models regenerated from the source text on every run)
 _K3DEC = "K3: clipper_base.go:isContributingClosed / isContributingOpen are translated from the current source on every run (harness/decisions.go: switch/if/return/local variables, continuation-passing) into Gen/Decisions_gen.v and proved equal to 'the expected region differs across the edge' / want_open for every fill rule, clip type and wind count (Model/DecisionProofs.v); the translator is trusted, untranslatable code breaks the theorem"
 _K3WC = 'K3: the wind-count statements of setWindCountForClosedPathEdge and intersectEdges are translated (harness/fragments.go) into Gen/Windcount_gen.v and proved to maintain the left/right encoding of windCount (Model/WindcountProofs.v); the global sweep invariant (ordered active edge list, every crossing found) is NOT proved'
+_K3NP = "K3: the tail of intersectEdges that decides whether two crossing non-hot edges start a new output polygon is translated (harness/newpoly.go; a call of addLocalMinPoly read as true, a bare return as false) into Gen/NewPoly_gen.v and proved to say 'both edges are contributing' for edges of the same path set (Model/NewPolyProofs.v)"
 _K3RECT = "K3: rect_clip.go:getLocation, headingClockwise, getAdjacentLocation, areOpposites, getEdgesForPt are translated on every run (harness/pure.go) into Gen/RectLeaf_gen.v and proved against their specifications (Model/RectLeafProofs.v); Go's % is read as Z.modulo (operands are non-negative in the stated ranges); the translator is trusted"
-for _pid, _extra in (('C01', [_K3DEC, _K3WC]), ('C19', [_K3DEC]), ('C09', [_K3DEC]), ('C06', [_K3RECT]), ('C11', [_K3RECT])):
+for _pid, _extra in (('C01', [_K3DEC, _K3WC, _K3NP]), ('C19', [_K3DEC, _K3NP]), ('C09', [_K3DEC]), ('C06', [_K3RECT]), ('C11', [_K3RECT])):
     PROPS[_pid]['trust'] = list(PROPS[_pid]['trust']) + _extra
